@@ -90,6 +90,10 @@ def cases(tier, seed):
             for wt in range(0, wmax + 1):
                 out.append({"id": "conf/n%d/s%d/w%d" % (n, sens, wt), "kind": "conf", "n": n,
                             "sens": sens, "wt": wt, "cost": (9 * (wt + 1)) ** n})
+    # one election object applied to lists of different lengths (the rule is about every list, whatever was voted on before)
+    for kind in ("maj", "min", "ord"):
+        for i in range(12 if tier == "quick" else 60):
+            out.append({"id": "shared/%s/%d" % (kind, i), "kind": "shared", "rule": kind, "seed": [seed, 131, i], "cost": 200})
     # long random sequences for larger ensembles (beyond the explored graphs)
     nr = 40 if tier == "quick" else 400
     for i in range(nr):
@@ -100,7 +104,7 @@ def cases(tier, seed):
 def targets(tier):
     return {"stateless_evaluations": 10000, "confirmed_transitions": 10000, "confirmed_joint_states": 300,
             "monotonicity_flips": 3000, "contract_evaluations": 20000, "confirmed_drift": 100,
-            "confirmed_warning": 100, "random_sequence_steps": 5000}
+            "confirmed_warning": 100, "random_sequence_steps": 5000, "shared_instance_calls": 5000}
 
 
 def expected_stateless(case, k, n):
@@ -184,6 +188,27 @@ def run_case(case, ctx):
         ctx.nontrivial = len(seen) >= 2
         ctx.sample = {"kind": kind, "params": {k_: case[k_] for k_ in ("n", "a", "c") if k_ in case},
                       "vectors_applied": 3 ** n, "verdicts_seen": sorted(map(str, seen))}
+        return
+    if kind == "shared":
+        rng = np.random.default_rng(case["seed"])
+        rule = case["rule"]
+        params = {"kind": rule, "a": int(rng.integers(1, 4)), "c": int(rng.integers(0, 3))}
+        el = make(params)
+        for step in range(400):
+            n = int(rng.integers(0, 7))
+            vec = tuple(S[j] for j in rng.integers(0, 3, size=n))
+            k = sum(s == "drift" for s in vec)
+            exp = "drift" if expected_stateless(params, k, n) else None
+            r = el([Stub(s) for s in vec])
+            ctx.count("shared_instance_calls")
+            seen.add(r)
+            if r != exp:
+                ctx.violation("C13/%s/verdict_shared_instance" % rule, "the same election object, call %d on %d members with votes %s: returned %r, rule says %r" % (
+                    step, n, vec, r, exp), params=params, votes=vec)
+                return
+        ctx.nontrivial = len(seen) >= 2
+        ctx.digest = "shared-%s-%s" % (rule, case["seed"])
+        ctx.sample = {"kind": "one election object over lists of varying length", "rule": rule, "params": params, "calls": 400}
         return
     if kind == "conf":
         n, sens, wt = case["n"], case["sens"], case["wt"]
